@@ -46,10 +46,85 @@ func c11Repo() string {
 
 // c11Paths enumerates the acyclic paths of a statement list.  Each path is a string of action letters:
 // r = send on queuedResults, n = send on clientUpdates, c = other call, U = a construct this reader does not
-// follow (loop, switch, select, goto, …).  `done` marks paths that ended in a return.
+// follow (loop, switch, select, goto, a call with sends in a position it cannot inline, …).  `done` marks paths
+// that ended in a return.  Calls to functions of the package / methods on the same receiver whose body
+// (transitively, bounded depth) sends on queuedResults are INLINED: the paths run through the callee.
 type c11Path struct {
 	acts string
 	done bool
+}
+
+type c11Fn struct {
+	recvType string // "" for a plain function
+	recvName string
+	decl     *ast.FuncDecl
+}
+
+// c11Reader holds the package's function declarations.
+type c11Reader struct {
+	fns map[string]*c11Fn // key: recvType + "." + name
+}
+
+const c11MaxDepth = 4
+
+func c11RecvType(fd *ast.FuncDecl) (typ, name string) {
+	if fd.Recv == nil || len(fd.Recv.List) == 0 {
+		return "", ""
+	}
+	f := fd.Recv.List[0]
+	if len(f.Names) > 0 {
+		name = f.Names[0].Name
+	}
+	t := f.Type
+	if st, ok := t.(*ast.StarExpr); ok {
+		t = st.X
+	}
+	if id, ok := t.(*ast.Ident); ok {
+		typ = id.Name
+	}
+	return
+}
+
+// callee resolves a call made inside a function whose receiver is (recvType, recvName): `recvName.m(...)` is the
+// method m of the same type, `f(...)` a package-level function.  Anything else (calls through fields, interfaces,
+// other packages) is not followed.
+func (rd *c11Reader) callee(call *ast.CallExpr, cur *c11Fn) *c11Fn {
+	switch f := call.Fun.(type) {
+	case *ast.Ident:
+		return rd.fns["."+f.Name]
+	case *ast.SelectorExpr:
+		if id, ok := f.X.(*ast.Ident); ok && cur != nil && cur.recvName != "" && id.Name == cur.recvName {
+			return rd.fns[cur.recvType+"."+f.Sel.Name]
+		}
+	}
+	return nil
+}
+
+// sends reports whether executing the node (not the bodies of function literals in it) can send a reply on
+// queuedResults, directly or through followed calls.
+func (rd *c11Reader) sends(n ast.Node, cur *c11Fn, depth int) bool {
+	found := false
+	ast.Inspect(n, func(x ast.Node) bool {
+		if found {
+			return false
+		}
+		switch v := x.(type) {
+		case *ast.FuncLit:
+			return false
+		case *ast.SendStmt:
+			if sel, ok := v.Chan.(*ast.SelectorExpr); ok && sel.Sel.Name == "queuedResults" {
+				found = true
+			}
+		case *ast.CallExpr:
+			if depth < c11MaxDepth {
+				if cal := rd.callee(v, cur); cal != nil && cal.decl.Body != nil && rd.sends(cal.decl.Body, cal, depth+1) {
+					found = true
+				}
+			}
+		}
+		return true
+	})
+	return found
 }
 
 func c11Calls(n ast.Node) int {
@@ -66,23 +141,37 @@ func c11Calls(n ast.Node) int {
 	return cnt
 }
 
-func c11Stmts(stmts []ast.Stmt, in []c11Path) []c11Path {
-	cur := in
+func (rd *c11Reader) stmts(stmts []ast.Stmt, in []c11Path, cur *c11Fn, depth int) []c11Path {
+	paths := in
 	for _, st := range stmts {
 		var next []c11Path
-		for _, p := range cur {
+		for _, p := range paths {
 			if p.done {
 				next = append(next, p)
 				continue
 			}
-			next = append(next, c11Stmt(st, p)...)
+			next = append(next, rd.stmt(st, p, cur, depth)...)
 		}
-		cur = next
+		paths = next
 	}
-	return cur
+	return paths
 }
 
-func c11Stmt(st ast.Stmt, p c11Path) []c11Path {
+// other: a statement that is not a plain call statement: calls in it are 'c' unless they can send (then 'U')
+func (rd *c11Reader) other(n ast.Node, p c11Path, cur *c11Fn, depth int) []c11Path {
+	if n == nil {
+		return []c11Path{p}
+	}
+	if rd.sends(n, cur, depth) {
+		return []c11Path{{p.acts + "U", false}}
+	}
+	if c11Calls(n) > 0 {
+		return []c11Path{{p.acts + "c", false}}
+	}
+	return []c11Path{p}
+}
+
+func (rd *c11Reader) stmt(st ast.Stmt, p c11Path, cur *c11Fn, depth int) []c11Path {
 	add := func(s string) []c11Path { return []c11Path{{p.acts + s, false}} }
 	switch s := st.(type) {
 	case *ast.SendStmt:
@@ -96,48 +185,95 @@ func c11Stmt(st ast.Stmt, p c11Path) []c11Path {
 		case "clientUpdates":
 			return add("n")
 		}
-		return add("U")
+		return add("c") // a send on some other channel: not a reply
 	case *ast.ExprStmt:
-		if c11Calls(s) > 0 {
-			return add("c")
+		if call, ok := s.X.(*ast.CallExpr); ok {
+			if cal := rd.callee(call, cur); cal != nil && cal.decl.Body != nil && rd.sends(cal.decl.Body, cal, depth+1) {
+				for _, a := range call.Args { // arguments are evaluated first
+					if rd.sends(a, cur, depth) {
+						return add("U")
+					}
+				}
+				if depth >= c11MaxDepth {
+					return add("U")
+				}
+				out := rd.stmts(cal.decl.Body.List, []c11Path{{p.acts, false}}, cal, depth+1)
+				for i := range out {
+					out[i].done = false // a return inside the callee ends the callee, not the closure
+				}
+				return out
+			}
 		}
-		return add("")
+		return rd.other(s, p, cur, depth)
 	case *ast.AssignStmt, *ast.DeclStmt, *ast.IncDecStmt:
-		if c11Calls(s) > 0 {
-			return add("c")
+		return rd.other(s, p, cur, depth)
+	case *ast.DeferStmt:
+		if rd.sends(s.Call, cur, depth) {
+			return add("U")
 		}
 		return add("")
-	case *ast.DeferStmt, *ast.EmptyStmt:
+	case *ast.EmptyStmt:
 		return add("")
 	case *ast.ReturnStmt:
-		return []c11Path{{p.acts, true}}
+		out := rd.other(s, p, cur, depth)
+		out[0].done = true
+		return out
 	case *ast.BlockStmt:
-		return c11Stmts(s.List, []c11Path{p})
+		return rd.stmts(s.List, []c11Path{p}, cur, depth)
 	case *ast.IfStmt:
 		q := p
-		if s.Init != nil && c11Calls(s.Init) > 0 {
-			q.acts += "c"
+		if s.Init != nil {
+			q = rd.other(s.Init, q, cur, depth)[0]
 		}
-		out := c11Stmts(s.Body.List, []c11Path{q})
+		q = rd.other(s.Cond, q, cur, depth)[0]
+		out := rd.stmts(s.Body.List, []c11Path{q}, cur, depth)
 		switch e := s.Else.(type) {
 		case nil:
 			out = append(out, q)
 		case *ast.BlockStmt:
-			out = append(out, c11Stmts(e.List, []c11Path{q})...)
+			out = append(out, rd.stmts(e.List, []c11Path{q}, cur, depth)...)
 		case *ast.IfStmt:
-			out = append(out, c11Stmt(e, q)...)
+			out = append(out, rd.stmt(e, q, cur, depth)...)
 		}
 		return out
 	default:
-		return add("U")
+		if rd.sends(st, cur, depth) {
+			return add("U")
+		}
+		if c11Calls(st) > 0 {
+			return add("c")
+		}
+		return add("")
 	}
 }
 
-// c11Facts parses rpc_server.go and returns "name npaths path…" groups for every closure passed to runLaterIfActive.
+// c11Facts parses the package (non-test files of the repository root) and returns "name npaths path…" groups for
+// every closure passed to runLaterIfActive in rpc_server.go.
 func c11Facts() string {
 	fset := token.NewFileSet()
-	f, err := parser.ParseFile(fset, filepath.Join(c11Repo(), "rpc_server.go"), nil, 0)
-	if err != nil {
+	files, _ := filepath.Glob(filepath.Join(c11Repo(), "*.go"))
+	rd := &c11Reader{fns: map[string]*c11Fn{}}
+	var rpc *ast.File
+	for _, fn := range files {
+		base := filepath.Base(fn)
+		if strings.HasSuffix(base, "_test.go") || strings.HasPrefix(base, "verif_") {
+			continue
+		}
+		f, err := parser.ParseFile(fset, fn, nil, 0)
+		if err != nil {
+			continue
+		}
+		if base == "rpc_server.go" {
+			rpc = f
+		}
+		for _, d := range f.Decls {
+			if fd, ok := d.(*ast.FuncDecl); ok {
+				typ, name := c11RecvType(fd)
+				rd.fns[typ+"."+fd.Name.Name] = &c11Fn{typ, name, fd}
+			}
+		}
+	}
+	if rpc == nil {
 		return "facts 0 ERR parse"
 	}
 	type fact struct {
@@ -145,11 +281,13 @@ func c11Facts() string {
 		paths []string
 	}
 	var facts []fact
-	for _, d := range f.Decls {
+	for _, d := range rpc.Decls {
 		fd, ok := d.(*ast.FuncDecl)
 		if !ok || fd.Body == nil {
 			continue
 		}
+		typ, rname := c11RecvType(fd)
+		cur := &c11Fn{typ, rname, fd}
 		lits := map[string]*ast.FuncLit{} // local closures by variable name
 		ast.Inspect(fd.Body, func(n ast.Node) bool {
 			if as, ok := n.(*ast.AssignStmt); ok && len(as.Lhs) == 1 && len(as.Rhs) == 1 {
@@ -170,18 +308,27 @@ func c11Facts() string {
 			if !ok || sel.Sel.Name != "runLaterIfActive" {
 				return true
 			}
-			var fl *ast.FuncLit
+			var body []ast.Stmt
+			in := cur
 			switch a := call.Args[0].(type) {
 			case *ast.FuncLit:
-				fl = a
+				body = a.Body.List
 			case *ast.Ident:
-				fl = lits[a.Name]
+				if fl := lits[a.Name]; fl != nil {
+					body = fl.Body.List
+				}
+			case *ast.SelectorExpr: // a method value: s.method
+				if id, ok := a.X.(*ast.Ident); ok && id.Name == rname {
+					if cal := rd.fns[typ+"."+a.Sel.Name]; cal != nil && cal.decl.Body != nil {
+						body, in = cal.decl.Body.List, cal
+					}
+				}
 			}
 			fc := fact{name: fd.Name.Name}
-			if fl == nil {
+			if body == nil {
 				fc.paths = []string{"U"}
 			} else {
-				for _, p := range c11Stmts(fl.Body.List, []c11Path{{"", false}}) {
+				for _, p := range rd.stmts(body, []c11Path{{"", false}}, in, 0) {
 					a := p.acts
 					if a == "" {
 						a = "-"
